@@ -1,5 +1,5 @@
 (* Model/C03Run.v - case types and checker evaluated on harness-generated cases (C03) *)
-From ReqV Require Export Lib.Bytes Lib.PackedBytes Model.BodyFraming Model.StreamBody Model.StreamWire.
+From ReqV Require Export Lib.Bytes Lib.PackedBytes Model.BodyFraming Model.StreamBody Model.StreamWire Model.Interim.
 
 (* what the harness saw for one exchange: error from the call, or the call succeeded and
    io.ReadAll(resp.Body) ended with [e] after [dlen] bytes; [prefix_ok]: the Go side
@@ -70,14 +70,18 @@ Inductive c03_case :=
    payload bytes, in order, from [sent]; anything else is given raw), how the stream ended,
    all DATA payload bytes written, the number of bytes written (cross-check of the
    rendering), what the caller saw, whether the follow-up was served by the same connection *)
-| H3Case (cl : option N) (no_headers : bool) (segs : list h3seg) (e : h3end)
+| H3Case (blocks : list hblock)      (* interim header blocks, then the final one: (status, declared length) *)
+         (no_headers : bool) (segs : list h3seg) (e : h3end)
+         (coded : option (coding * N * N))  (* the DATA carries a content-coding the client decodes:
+                                         (coding, length of the whole coded stream, length of the plain body) *)
          (sent : bytes) (wire_len : N) (seen : h3_seen) (next_on_same_conn : bool)
 (* HTTP/2: declared length, END_STREAM on HEADERS, "connection ended before any response
    HEADERS", the stream's events, all DATA bytes sent, what the caller saw, and whether the
    follow-up request was served by the same connection *)
-| H2Case (cl : option N) (hdr_end no_headers : bool) (evs : list h2ev)
+| H2Case (blocks : list hblock) (hdr_end no_headers : bool) (evs : list h2ev)
          (wire : option (N * bytes))   (* stream id, every byte the peer wrote on the connection
                                           behind the response HEADERS frame *)
+         (coded : option (coding * N * N))
          (sent : bytes) (seen : h2_seen) (next_on_same_conn : bool)
 | H1GzCuts (hlen : N) (fr : framing) (wire z : bytes) (plain_len : N) (obs : list (N * option (bool * N)))
 (* one response stream cut at the listed offsets (the peer closes after k bytes) *)
@@ -90,44 +94,63 @@ Inductive c03_case :=
 
 Definition c03_check (c : c03_case) : bool :=
   match c with
-  | H3Case cl no_headers segs e sent wire_len seen same =>
+  | H3Case blocks no_headers segs e coded sent wire_len seen same =>
       if no_headers then
         (* a failed round trip also evicts the connection from the round tripper's cache *)
         match seen with H3SeenCallErr => negb same | _ => false end
       else
         let '(wire, evs, evs_ok) := h3_render_segs segs sent in
-        let '(d, r) := h3_wire_read true cl wire e in
-        match seen with
-        | H3SeenCallErr => false
-        | H3SeenRead r' dlen pok =>
+        match h3_exchange blocks wire e, seen with
+        | None, H3SeenCallErr => negb same
+        | Some (d, r), H3SeenRead r' dlen pok =>
             (N.of_nat (length wire) =? wire_len)%N
-            && h3wres_eqb r r' && (N.of_nat (length d) =? dlen)%N && pok
-            && bytes_eqb d (firstn_N dlen sent)
             && Bool.eqb (h3_conn_usable e r) same
             && (if evs_ok then
-                  let '(d', e') := h3_read true cl (evs ++ [h3_term_event e]) in
-                  bytes_eqb d' d && h3wres_eqb (W3 e') r
+                  match final_block max_1xx blocks with
+                  | Final b => let '(d', e') := h3_read true (accounting_cl b) (evs ++ [h3_term_event e]) in
+                               bytes_eqb d' d && h3wres_eqb (W3 e') r
+                  | _ => false
+                  end
                 else true)
+            && match coded with
+               | None =>
+                   h3wres_eqb r r' && (N.of_nat (length d) =? dlen)%N && pok
+                   && bytes_eqb d (firstn_N dlen sent)
+               | Some (c, zlen, plen) =>
+                   match coded_read (dec_by_len c zlen plen) h3w_clean (d, r) with
+                   | Some p => h3w_clean r' && (N.of_nat (length p) =? dlen)%N && pok
+                   | None => negb (h3w_clean r')
+                   end
+               end
+        | _, _ => false
         end
-  | H2Case cl hdr_end no_headers evs wire sent seen same =>
+  | H2Case blocks hdr_end no_headers evs wire coded sent seen same =>
       if no_headers then
         match seen with H2SeenCallErr => negb same | _ => false end
       else
-        let '(d, e) := h2_read cl hdr_end evs in
-        match seen with
-        | H2SeenCallErr => false
-        | H2SeenRead e' dlen pok =>
-            h2err_eqb e e' && (N.of_nat (length d) =? dlen)%N && pok
-            && bytes_eqb d (firstn_N dlen sent)
-            && Bool.eqb (if hdr_end then true else h2_conn_usable evs) same
-            && match wire with
-               | None => true
-               | Some (sid, w) =>
+        match h2_exchange blocks hdr_end evs, seen with
+        | Some (d, e), H2SeenRead e' dlen pok =>
+            Bool.eqb (if hdr_end then true else h2_conn_usable evs) same
+            && match wire, final_block max_1xx blocks with
+               | None, _ => true
+               | Some (sid, w), Final b =>
                    (* the same exchange from the bytes on the connection: frames parsed by
                       Model/H2Frame.v read_frames, padding stripped, cut frames dropped *)
-                   let '(d', e') := h2_read cl hdr_end (h2_wire_events sid 16777215 w) in
-                   bytes_eqb d' d && h2err_eqb e' e
+                   let '(d', e2) := h2_read (accounting_cl b) hdr_end (h2_wire_events sid 16777215 w) in
+                   bytes_eqb d' d && h2err_eqb e2 e
+               | _, _ => false
                end
+            && match coded with
+               | None =>
+                   h2err_eqb e e' && (N.of_nat (length d) =? dlen)%N && pok
+                   && bytes_eqb d (firstn_N dlen sent)
+               | Some (c, zlen, plen) =>
+                   match coded_read (dec_by_len c zlen plen) h2_clean (d, e) with
+                   | Some p => h2_clean e' && (N.of_nat (length p) =? dlen)%N && pok
+                   | None => negb (h2_clean e')
+                   end
+               end
+        | _, _ => false
         end
   | H1GzCuts hlen fr wire z plen obs =>
       forallb (fun ko => gz_matches z plen (h1_read hlen fr (firstn_N (fst ko) wire)) (snd ko)) obs
